@@ -4,7 +4,9 @@ import (
 	"crypto/ed25519"
 	"encoding/base64"
 	"encoding/json"
+	"errors"
 	"fmt"
+	"time"
 	"os"
 	"sort"
 	"strings"
@@ -13,11 +15,12 @@ import (
 	"github.com/corestario/kyber/pairing/bls12381"
 
 	"github.com/lidofinance/dc4bc/client/types"
+	"github.com/lidofinance/dc4bc/fsm/types/requests"
 	"github.com/lidofinance/dc4bc/storage"
 )
 
 var c18Kinds = []string{"field-deleted", "type-confused", "negative-int", "huge-int", "empty-array", "oversized-array",
-	"short-id", "unknown-event", "unknown-round", "junk-bytes-value", "truncated-bytes-value", "baked-range-negative", "baked-range-huge", "not-json", "null-value", "deep-nesting",
+	"short-id", "unknown-event", "unknown-round", "error-report-naming-nobody", "junk-bytes-value", "truncated-bytes-value", "baked-range-negative", "baked-range-huge", "not-json", "null-value", "deep-nesting",
 	"sealed-deal-mutated-inside"}
 
 // mutateJSON applies one structure-aware mutation to a JSON document.
@@ -196,6 +199,24 @@ func mutateStructural(w *World, m storage.Message, by int, kind string) (storage
 		x.Event = []string{"event_unknown", "", "event_signing_restart", "event_dkg_init_process", "state_dkg_commits_await_confirmations"}[w.Tape.Choose(5, "ev")]
 	case "unknown-round":
 		x.DkgRoundID = []string{"", "zz", strings.Repeat("ab", 32), m.DkgRoundID[:8]}[w.Tape.Choose(4, "round")]
+	case "error-report-naming-nobody":
+		// a well-formed failure report of the step the genuine message belongs
+		// to, naming a participant number nobody has
+		ev, ok := map[string]string{
+			"event_sig_proposal_confirm_by_participant": "event_sig_proposal_decline_by_participant",
+			"event_dkg_commit_confirm_received":         "event_dkg_commit_confirm_canceled_by_error",
+			"event_dkg_deal_confirm_received":           "event_dkg_deal_confirm_canceled_by_error",
+			"event_dkg_response_confirm_received":       "event_dkg_response_confirm_canceled_by_error",
+			"event_dkg_master_key_confirm_received":     "event_dkg_master_key_confirm_canceled_by_error",
+			"event_signing_partial_sign_received":       "event_signing_partial_sign_error_received",
+		}[m.Event]
+		if !ok {
+			return x, false
+		}
+		x.Event = ev
+		x.RecipientAddr = ""
+		pid := []int{len(w.Nodes), len(w.Nodes) + 7, -1, 1 << 31, 255}[w.Tape.Choose(5, "nobody")]
+		x.Data, _ = json.Marshal(requests.DKGProposalConfirmationErrorRequest{ParticipantId: pid, Error: requests.NewFSMError(errors.New("made up")), CreatedAt: time.Now()})
 	case "baked-range-negative", "baked-range-huge":
 		if m.Event != "event_signing_start" {
 			return x, false
@@ -240,12 +261,74 @@ func runC18(w *World, tier string) (bool, interface{}) {
 	judged := 0
 	var kinds []string
 	surface := w.Tape.Choose(3, "surface") // 0 board, 1 operation files, 2 API bodies
+	reinitRounds := map[string]bool{}      // round ids named only by the adversary's reinitialisation messages
+	carryReinit := w.Tape.Bool(1, 2, "carryAdversaryReinit")
+	for _, op := range c.Ops {
+		// in half of the runs the operators leave the adversary's reinitialisation
+		// operations alone; in the other half they carry them to the machines
+		// (one more input surface of the airgapped machine)
+		op.Filter = func(o *types.Operation) bool { return carryReinit || !reinitRounds[o.DKGIdentifier] }
+	}
 	if surface == 0 {
 		w.Board.PreAppend = append(w.Board.PreAppend, func(m storage.Message, by int) {
 			if by < 0 || injected >= budget || !w.Tape.Bool(1, 3, "inject?") {
 				return
 			}
 			kind := c18Kinds[w.Tape.Choose(len(c18Kinds), "kind")]
+			if m.Event != string(types.ReinitDKG) && m.Event != "signature_reconstructed" && w.Tape.Bool(1, 4, "viaReinit") {
+				// the second unauthenticated door: a reinitialisation message for an
+				// unused round id. Its embedded log (this round's genuine messages,
+				// relabelled) is replayed with signature and sender checks off, so a
+				// malformed message appended to it reaches the state machines directly;
+				// or the envelope itself is malformed.
+				id := freshRoundID(w, uint64(len(w.Board.Msgs)))
+				parts, thr := reinitParticipants(w, m.DkgRoundID)
+				log := relabelledLog(w, m.DkgRoundID, id)
+				var env storage.Message
+				how := ""
+				switch w.Tape.Choose(3, "reinitHow") {
+				case 0:
+					x, ok := mutateStructural(w, m, by, kind)
+					if !ok || kind == "unknown-round" {
+						return
+					}
+					x.DkgRoundID = id
+					env = reinitEnvelope(w, by, id, thr, parts, append(log, x))
+					how = "reinit-embedded/" + kind
+				case 1:
+					base, _ := json.Marshal(types.ReDKG{DKGID: id, Threshold: thr, Participants: parts, Messages: log})
+					d, ok := mutateJSON(w, base, kind)
+					if !ok {
+						return
+					}
+					env = reinitEnvelopeRaw(w, by, id, d)
+					how = "reinit-envelope/" + kind
+				default:
+					// well-formed log, odd envelope fields
+					odd := []string{"", m.DkgRoundID, "zz", id}[w.Tape.Choose(4, "oddId")]
+					var ps []types.Participant
+					switch w.Tape.Choose(3, "oddParts") {
+					case 0:
+						ps = nil
+					case 1:
+						ps = append(append([]types.Participant{}, parts...), types.Participant{Name: "mallory"})
+					default:
+						ps = parts
+					}
+					env = reinitEnvelope(w, by, odd, []int{thr, 0, -1, 1 << 30}[w.Tape.Choose(4, "oddThr")], ps, log)
+					env.DkgRoundID = id
+					how = "reinit-odd-fields"
+					id = odd
+				}
+				injected++
+				kinds = append(kinds, how+"@"+m.Event)
+				w.Stats.Fault("malformed-via-reinit")
+				if id != m.DkgRoundID {
+					reinitRounds[id] = true
+				}
+				w.Board.InjectMsg(env, &Inject{Kind: how, Expect: "no-crash"})
+				return
+			}
 			x, ok := mutateStructural(w, m, by, kind)
 			if !ok {
 				return
@@ -446,6 +529,11 @@ func runC18(w *World, tier string) (bool, interface{}) {
 	for _, nd := range w.Nodes {
 		if len(nd.Panics) > 0 && !w.Failed() {
 			w.Fail("C18", "node-panic", strings.Join(nd.Panics, "; "))
+		}
+	}
+	for _, a := range w.Airs {
+		if len(a.Panics) > 0 && !w.Failed() {
+			w.Fail("C18", "airgapped-panic/in-ceremony", fmt.Sprintf("machine %d: %s", a.Idx, strings.Join(a.Panics, "; ")))
 		}
 	}
 	sort.Strings(kinds)
